@@ -4,7 +4,9 @@ import os, sys, json, time, hashlib, subprocess, glob, re, shutil
 ROOT = os.path.dirname(os.path.dirname(os.path.dirname(os.path.abspath(__file__))))   # /verif (or a snapshot of it)
 BUILD = os.path.join(ROOT, 'build')
 SPEC = os.path.join(ROOT, 'spec')
-REPO = '/repo'
+# the registered checks always look at /repo; VERIF_REPO is only set by bin/seeded_regression.py --scratch, which
+# works on scratch copies of /repo and /verif so that it can run while /verif is being edited
+REPO = os.environ.get('VERIF_REPO', '/repo')
 HARNESS_BIN = os.path.join(BUILD, 'target', 'release')
 JAVA_OPTS = '-Xss1g -Dtlc2.tool.queue.IStateQueue=StateDeque'
 
@@ -49,8 +51,24 @@ def verif_hash():
     return sha_of_files(fs)
 
 
-def spec_hash():
-    return sha_of_files(files_under(ROOT, ['spec/*.tla', 'spec/*.cfg', 'bin/hist2ndjson.py']))
+def spec_hash(module=None):
+    """Hash of a module, its .cfg and everything it EXTENDS / INSTANCEs (transitively) among spec/*.tla;
+    without a module: of the whole spec directory."""
+    if module is None:
+        return sha_of_files(files_under(ROOT, ['spec/*.tla', 'spec/*.cfg', 'bin/hist2ndjson.py']))
+    seen, todo = set(), [module]
+    while todo:
+        m = todo.pop()
+        f = os.path.join(SPEC, m + '.tla')
+        if m in seen or not os.path.exists(f):
+            continue
+        seen.add(m)
+        txt = open(f).read()
+        for ln in re.findall(r'^\s*EXTENDS\s+(.*)$', txt, re.M):
+            todo.extend(x.strip() for x in ln.split(','))
+        todo.extend(re.findall(r'INSTANCE\s+(\w+)', txt))
+    fs = [os.path.join(SPEC, m + '.tla') for m in seen] + [os.path.join(SPEC, module + '.cfg'), os.path.join(ROOT, 'bin', 'hist2ndjson.py')]
+    return sha_of_files(fs)
 
 
 def run(cmd, env=None, timeout=3600, cwd=None, stdout=None):
@@ -120,7 +138,7 @@ def tlc_mc(module, env, workers=8, timeout=1800, emit=True, invariants=None, liv
     envs = dict(env)
     if emit:
         envs['V_EMIT'] = '1'
-    key = hashlib.sha256((spec_hash() + module + json.dumps(envs, sort_keys=True) + json.dumps(invariants) + 'v2-dumptrace' + ('live' if liveness else '')).encode()).hexdigest()[:20]
+    key = hashlib.sha256((spec_hash(module) + module + json.dumps(envs, sort_keys=True) + json.dumps(invariants) + 'v2-dumptrace' + ('live' if liveness else '')).encode()).hexdigest()[:20]
     d = os.path.join(BUILD, 'cache', 'mc', key)
     statf = os.path.join(d, 'stats.json')
     if os.path.exists(statf):
@@ -434,19 +452,26 @@ WITNESSES = {
 }
 
 
+# (name, environment[, options]); option reps = N: every emitted history is executed N times, each
+# time with a different pseudo-random sample script
+POCKET = q(V_FAULTS='none', V_APIWORLD='pocket7', V_CHECKERS='free', V_SHAPE='twophase')
 API_CONFIGS = {
     'quick': [('api4-faults', q(V_MAXCALLS=4, V_MAXK=3)),
-              ('api5-wellformed', q(V_MAXCALLS=5, V_FAULTS='none', V_VALIDALL=1))],
+              ('api5-wellformed', q(V_MAXCALLS=5, V_FAULTS='none', V_VALIDALL=1)),
+              # two-phase multi-query usage, two checker objects (one walls off the far end), problem and
+              # checker objects re-installed in every combination: up to 8 calls
+              ('api8-twophase-pocket', {**POCKET, 'V_MAXCALLS': '8'}, {'reps': 6})],
     'thorough': [('api5-faults', q(V_MAXCALLS=5, V_MAXK=4)),
-                 ('api6-wellformed', q(V_MAXCALLS=6, V_FAULTS='none', V_VALIDALL=1))],
+                 ('api6-wellformed', q(V_MAXCALLS=6, V_FAULTS='none', V_VALIDALL=1)),
+                 ('api9-twophase-pocket', {**POCKET, 'V_MAXCALLS': '9'}, {'reps': 24})],
 }
 
 
 def lattice_engine(planner, tier, seed, api=False):
     if api:
         conf = {'module': 'MC_PlannerAPI',
-                'quick': [(n, {**e, 'V_PLANNER': planner}) for n, e in API_CONFIGS['quick']],
-                'thorough': [(n, {**e, 'V_PLANNER': planner}) for n, e in API_CONFIGS['thorough']]}
+                'quick': [(c[0], {**c[1], 'V_PLANNER': planner}) + tuple(c[2:]) for c in API_CONFIGS['quick']],
+                'thorough': [(c[0], {**c[1], 'V_PLANNER': planner}) + tuple(c[2:]) for c in API_CONFIGS['thorough']]}
     else:
         conf = LAT_CONFIGS[planner]
     cfgs = list(conf['quick']) + (list(conf['thorough']) if tier == 'thorough' else [])
@@ -457,13 +482,21 @@ def lattice_engine(planner, tier, seed, api=False):
     work = os.path.join(BUILD, 'work', f"{'api' if api else 'lat'}-{planner}-{tier}")
     shutil.rmtree(work, ignore_errors=True)
     os.makedirs(work)
-    for name, env in cfgs:
+    for cfgent in cfgs:
+        name, env = cfgent[0], cfgent[1]
+        opts = cfgent[2] if len(cfgent) > 2 else {}
         t0 = time.time()
         st = tlc_mc(conf['module'], env, timeout=3000)
         if st['violated'] or not st['ok']:
             raise ToolError(f"specification {conf['module']} violates its own invariants {st['violated']} under {env} "
                             f"(see {st['dir']}/out.txt) - this is a defect of the model, not of the code")
         hist = os.path.join(st['dir'], 'hist.ndjson')
+        if opts.get('reps', 1) > 1:
+            lines = open(hist).read().splitlines()
+            hist = os.path.join(work, f'{name}.hist')
+            with open(hist, 'w') as f:
+                for _ in range(opts['reps']):
+                    f.write('\n'.join(lines) + '\n')
         nshards = 8 if st.get('kept_after_prefix_elimination', 0) > 4000 else 1
         trace = os.path.join(work, f'{name}.trace')
         twice = ['--twice'] if (api or 'api' in name) else []
@@ -534,7 +567,8 @@ def lattice_engine(planner, tier, seed, api=False):
                 whist.append({'planner': planner, 'topo': {'kind': kind, 'n': n, 'w': w if kind == 'grid' else n},
                               'maxd': int(e('V_MAXD', 2)), 'rad2': int(e('V_RAD2', 5)) if planner in ('rrtstar', 'prm') else 0,
                               'lvs': int(e('V_LVS', 1)), 'bias': e('V_BIAS', 'p') if planner != 'prm' else '0', 'seeded': True,
-                              'build': int(e('V_BUILD', 2)), 'valid': last['valid'], 'probs': last['probs'], 'calls': last['hist'],
+                              'build': int(e('V_BUILD', 2)), **({'worlds': last['worlds']} if 'worlds' in last else {'valid': last['valid']}),
+                              'probs': last['probs'], 'calls': last['hist'],
                               'witness': wname})
             except Exception as ex:  # noqa
                 log(f'[witness] could not extract the counterexample history of {wname}: {ex}')
